@@ -111,5 +111,18 @@ PROPS = {
                      "an error from the followed command getter: only 'update returns it and the output is unchanged' is checked (statement silent)",
                      "the error-reported clause is checked on the get() immediately after the erroring update only"],
     ),
+    "C06": dict(
+        run=native, level=EXPL, technique="runtime consistency monitor across the six accessors of the same object (presence/mode table, bit-identity of history vs accessor), boundaries recovered by bisection of get_piece, monotonicity of pieces monitored on sorted query times",
+        rule="seeded profiles (positions +-1e4, limits log-uniform 1e-2..1e3, start/end speeds inside and outside the limit, zero/non-zero end velocity and acceleration => all three end-command kinds, forward and reversed moves, geometry comfortably feasible / around the feasibility edge / arbitrary; a constructor panic is an allowed outcome) x query times {i64 extremes, -1,0,1, each recovered boundary +-2 ns, 48 (quick) / 256 (thorough) random times in [0,2*t3]}; distinct = (direction, end-command kind, set of non-empty phases, decade of t3, signs of start/end velocity)",
+        assumptions=["boundaries t1..t3 are private: they are recovered from get_piece by bisection on [0,2^62] and the direct reads are cross-checked against them",
+                     "velocity/position presence before t=0 is not constrained (statement only constrains mode, acceleration, history there)"],
+    ),
+    "C07": dict(
+        run=native, level=EXPL, technique="runtime reference-model monitor (f64 trapezoid from the inputs and the recovered boundaries, forward error bound), Simpson integral relation between accessors, bit-exact mirror metamorphic relation, acceptance oracle for comfortably feasible moves",
+        rule="same seeded profile generator as C06 (60% comfortably feasible by construction: speeds = max_vel*u with |u|<=1 and displacement >= 1.05*(accel+decel distance)+1e-3), each accepted profile queried at boundary +-2 ns times plus 96 (quick) / 512 (thorough) random times inside the move; distinct = (direction, set of non-empty phases, decade of t3, sign of start velocity, end velocity non-zero, comfortable)",
+        assumptions=["reference built from the recovered ns boundaries so their truncation is not charged as error; forward bound 48*2^-24*sum|terms| with the term magnitudes of the closed forms (|p0|,|v0 t|,|a t1 t|,|a t^2| ...); largest observed ratios reported",
+                     "mirror relation negates whole states (position, velocity and acceleration) and is checked only for non-zero displacement (sign tie-break at dp=0 is legitimate)",
+                     "arrival is decided on the reference trajectory evaluated at the recovered t3 against the end state"],
+    ),
 }
 NOT_APPLICABLE = {}
